@@ -91,6 +91,8 @@ func (store *Store) DeleteAccountMetadata(ctx context.Context, account, key stri
 			_, err := store.db.NewUpdate().
 				ModelTableExpr(store.GetPrefixedRelationName("accounts")).
 				Set("metadata = metadata - ?", key).
+				// the metadata history trigger dates the new revision with updated_at
+				Set("updated_at = " + store.GetPrefixedRelationName("transaction_date") + "()").
 				Where("address = ?", account).
 				Where("ledger = ?", store.ledger.Name).
 				Exec(ctx)
